@@ -137,7 +137,7 @@ func SelfTest() error {
 	{
 		id := unhex("acac29b4192fd923c24fe6042479b2a9")
 		pw, _ := Prepare("test", 4)
-		o := computeO(pw, pw, 4, 16)
+		o := computeO(pw, pw, 4, 16, false)
 		if hex.EncodeToString(o) != "badad1e86442699427116d3e5d5271bc80a27814fc5e80f815efeef839354c5f" {
 			return fmt.Errorf("Algorithm 3 KAT: got %x", o)
 		}
